@@ -75,6 +75,8 @@ type resolver struct {
 	resolving map[string]bool
 	// submodules already merged into a module: submodules may include each other
 	included map[*Module]map[string]bool
+	// the submodules merged into a module
+	submodules map[*Module][]*Module
 	// definitions left out because their if-feature is false, by the node they would be in
 	featureOff map[Meta]map[string]bool
 	trace      bool
@@ -147,6 +149,7 @@ func (r *resolver) module(y *Module) error {
 		// prefix, we need to reindex them
 		byName := y.imports
 		y.imports = make(map[string]*Import, len(byName))
+		var fromSubmodules []*Import
 		for _, i := range byName {
 			if i.loader == nil {
 				return fmt.Errorf("%s - no module loader defined", i.moduleName)
@@ -183,8 +186,42 @@ func (r *resolver) module(y *Module) error {
 			}
 
 			// imports were originally added by module name, but now that we know the
-			// prefix, we need to re-add them with proper key: prefix
-			y.imports[i.Prefix()] = i
+			// prefix, we need to re-add them with proper key: prefix.  What a submodule
+			// imports is loaded here too, but its prefix is the submodule's business
+			if i.parent == y {
+				y.imports[i.Prefix()] = i
+			} else {
+				fromSubmodules = append(fromSubmodules, i)
+			}
+		}
+		// ... it is still known to the module where the module itself has no other use for
+		// the prefix (paths of augments and deviations written in a submodule are resolved
+		// from the module)
+		sort.Slice(fromSubmodules, func(a, b int) bool { return fromSubmodules[a].moduleName < fromSubmodules[b].moduleName })
+		for _, i := range fromSubmodules {
+			if _, taken := y.imports[i.Prefix()]; !taken {
+				y.imports[i.Prefix()] = i
+			}
+		}
+	}
+	// a submodule has import statements of its own, with prefixes of its own: the definitions
+	// written in it look modules up there.  Every module a submodule imports was loaded with
+	// the imports of the module above.
+	for _, sub := range r.submodules[y] {
+		byName := sub.imports
+		sub.imports = make(map[string]*Import, len(byName))
+		for _, i := range byName {
+			if i.module == nil {
+				loaded, found := r.loadedModules[i.moduleName]
+				if !found {
+					return fmt.Errorf("%s - module %s imported by submodule %s is not loaded", y.ident, i.moduleName, sub.ident)
+				}
+				i.module = loaded
+			}
+			if i.prefix == "" {
+				return fmt.Errorf("%s - prefix required on import", i.moduleName)
+			}
+			sub.imports[i.prefix] = i
 		}
 	}
 
@@ -345,8 +382,16 @@ func (r *resolver) copyOverSubmoduleData(main *Module, sub *Module) error {
 		main.groupings[g.ident] = g
 	}
 	for _, i := range sub.imports {
-		main.imports[i.moduleName] = i
+		// the module's own import of the same module (or another submodule's) stays: it may
+		// bind another prefix
+		if _, has := main.imports[i.moduleName]; !has {
+			main.imports[i.moduleName] = i
+		}
 	}
+	if r.submodules == nil {
+		r.submodules = make(map[*Module][]*Module)
+	}
+	r.submodules[main] = append(r.submodules[main], sub)
 	main.extensions = append(main.extensions, sub.extensions...)
 	main.augments = append(main.augments, sub.augments...)
 	main.deviations = append(main.deviations, sub.deviations...)
